@@ -1,21 +1,25 @@
 #!/bin/bash
-# usage: tools/try_mutant.sh <worktree with MUTANT/> <checks...>
-# 1. verifies the seeded change in its scratch worktree (existing tests pass, demo fails with / passes without)
-# 2. applies it to /repo, runs the given checks, restores /repo
-W=$1; shift
-M=$W/MUTANT
-export CARGO_TARGET_DIR=$W/target
+# usage: tools/try_mutant.sh <dir with patch.diff + demo.rs> <checks...>
+# 1. verifies the seeded change in a scratch worktree of /repo's HEAD (created under /tmp/mut/verify and removed
+#    afterwards): the demo passes without the patch and fails with it, the existing tests pass with it
+# 2. applies it to /repo, runs the given checks, restores /repo and the evidence directory
+M=$(realpath $1); shift
+W=/tmp/mut/verify
+git -C /repo worktree remove --force $W 2>/dev/null
+git -C /repo worktree add --detach $W HEAD -q || exit 2
+export CARGO_TARGET_DIR=/tmp/mut/verify-target
 cd $W || exit 2
-git checkout -q -- . ; rm -f tests/demo.rs
-if [ -f $M/demo.rs ]; then cp $M/demo.rs tests/demo.rs; fi
-if [ -f $M/demo.diff ]; then git apply $M/demo.diff || echo "demo.diff does not apply"; fi
+cp $M/demo.rs tests/demo.rs
 echo "== without patch: demo"
-cargo test --offline --test demo 2>&1 | grep -E "^test result|error\[" | head -3
+cargo test --offline --test demo 2>&1 | grep -E "^test result|error(\[|:)" | head -3
 git apply $M/patch.diff || { echo "PATCH DOES NOT APPLY"; exit 2; }
-echo "== with patch: existing tests"
-cargo test --offline 2>&1 | grep -E "^test result|FAILED|error\[" | head -8
-git checkout -q -- . ; rm -f tests/demo.rs
+echo "== with patch: demo, then the existing tests"
+cargo test --offline --test demo 2>&1 | grep -E "^test result|error(\[|:)" | head -3
+rm -f tests/demo.rs
+cargo test --workspace --offline 2>&1 | grep -E "^test result: .* [1-9][0-9]* passed|FAILED|error(\[|:)" | head -8
 cd /verif
+git -C /repo worktree remove --force $W
+git -C /repo diff --quiet || { echo "/repo has uncommitted changes"; exit 2; }
 git -C /repo apply $M/patch.diff || { echo "PATCH DOES NOT APPLY TO /repo"; exit 2; }
 # evidence of a run against a changed tree must never replace the committed evidence
 rm -rf /verif/work/evidence.bak; cp -r /verif/evidence /verif/work/evidence.bak
